@@ -68,7 +68,7 @@ enum Scenario {
     /// n servers start at once on a leftover of a dead owner
     Contend { leftover: Leftover, servers: usize },
     /// server 0 holds the role for the whole execution (reachable or hung); n more servers start
-    LiveHolder { reachable: bool, servers: usize },
+    LiveHolder { reachable: bool, foreign: bool, servers: usize },
     /// server 0 holds the role and shuts down (guard drop) while n more servers start
     Releasing { servers: usize },
     /// server 0 starts on an empty store and dies immediately before the effect after its k-th hook
@@ -95,6 +95,8 @@ struct Shared {
     serving: Vec<AtomicBool>,
     /// false = the holder's endpoint never answers (hung server)
     answers: Vec<AtomicBool>,
+    /// actor 0 (the pre-existing holder) runs under another uid: `kill(pid, 0)` answers EPERM
+    holder_foreign: bool,
     spawned: Vec<AtomicBool>,
     clients_left: AtomicUsize,
     guards: Mutex<Vec<AuthorityLockGuard>>,
@@ -127,8 +129,18 @@ impl ActorEnv for Env {
     fn pid(&self) -> Option<u32> {
         Some(self.pid)
     }
-    fn pid_alive(&self, pid: u32) -> Option<bool> {
-        Some(self.shared.alive(pid))
+    /// The liveness probe is answered at the level of `kill(pid, 0)`: delivered, ESRCH for a dead
+    /// pid, EPERM for a live process of another user. `pid_liveness`'s classification runs for real.
+    fn kill_errno(&self, pid: u32) -> Option<i32> {
+        const EPERM: i32 = 1;
+        const ESRCH: i32 = 3;
+        Some(if !self.shared.alive(pid) {
+            ESRCH
+        } else if self.shared.holder_foreign && pid == BASE_PID {
+            EPERM
+        } else {
+            0
+        })
     }
 }
 
@@ -334,6 +346,7 @@ fn make_world(sc: Scenario) -> (World, Vec<ActorBody>) {
     let mut kinds: Vec<Kind> = Vec::new();
     let mut leftover = Leftover::Empty;
     let mut holder_answers = true;
+    let mut holder_foreign = false;
     match sc {
         Scenario::Contend { leftover: l, servers } => {
             leftover = l;
@@ -341,8 +354,9 @@ fn make_world(sc: Scenario) -> (World, Vec<ActorBody>) {
                 kinds.push(Kind::Server { release: false, crash_at: None, wait_spawn: false });
             }
         }
-        Scenario::LiveHolder { reachable, servers } => {
+        Scenario::LiveHolder { reachable, foreign, servers } => {
             holder_answers = reachable;
+            holder_foreign = foreign;
             kinds.push(Kind::Holder { release: false });
             for _ in 0..servers {
                 kinds.push(Kind::Server { release: false, crash_at: None, wait_spawn: false });
@@ -383,6 +397,7 @@ fn make_world(sc: Scenario) -> (World, Vec<ActorBody>) {
         dead: (0..n).map(|_| Arc::new(AtomicBool::new(false))).collect(),
         serving: (0..n).map(|_| AtomicBool::new(false)).collect(),
         answers: (0..n).map(|i| AtomicBool::new(i != 0 || holder_answers)).collect(),
+        holder_foreign,
         spawned: (0..n).map(|_| AtomicBool::new(false)).collect(),
         clients_left: AtomicUsize::new(n_clients),
         guards: Mutex::new(Vec::new()),
@@ -449,7 +464,7 @@ fn make_world(sc: Scenario) -> (World, Vec<ActorBody>) {
 fn scenario_label(sc: Scenario) -> String {
     match sc {
         Scenario::Contend { leftover, servers } => format!("{leftover:?}x{servers}"),
-        Scenario::LiveHolder { reachable, servers } => format!("LiveHolder({})x{servers}", if reachable { "reachable" } else { "hung" }),
+        Scenario::LiveHolder { reachable, foreign, servers } => format!("LiveHolder({}{})x{servers}", if reachable { "reachable" } else { "hung" }, if foreign { ",other_uid" } else { "" }),
         Scenario::Releasing { servers } => format!("Releasingx{servers}"),
         Scenario::Crashing { at_hook, servers } => format!("CrashAtHook{at_hook}x{servers}"),
         Scenario::Clients { leftover, clients, servers } => format!("Clients{clients}+{servers}:{leftover:?}"),
@@ -459,7 +474,7 @@ fn scenario_label(sc: Scenario) -> String {
 fn scenario_json(sc: Scenario) -> Value {
     match sc {
         Scenario::Contend { leftover, servers } => json!({"kind": "contend", "leftover": format!("{leftover:?}"), "servers": servers}),
-        Scenario::LiveHolder { reachable, servers } => json!({"kind": "live_holder", "reachable": reachable, "servers": servers}),
+        Scenario::LiveHolder { reachable, foreign, servers } => json!({"kind": "live_holder", "reachable": reachable, "foreign": foreign, "servers": servers}),
         Scenario::Releasing { servers } => json!({"kind": "releasing", "servers": servers}),
         Scenario::Crashing { at_hook, servers } => json!({"kind": "crashing", "at_hook": at_hook, "servers": servers}),
         Scenario::Clients { leftover, clients, servers } => json!({"kind": "clients", "leftover": format!("{leftover:?}"), "clients": clients, "servers": servers}),
@@ -473,7 +488,7 @@ fn parse_leftover(s: &str) -> Leftover {
 fn scenario_from_json(v: &Value) -> Scenario {
     let servers = v["servers"].as_u64().unwrap_or(2) as usize;
     match v["kind"].as_str().unwrap_or("contend") {
-        "live_holder" => Scenario::LiveHolder { reachable: v["reachable"].as_bool().unwrap_or(true), servers },
+        "live_holder" => Scenario::LiveHolder { reachable: v["reachable"].as_bool().unwrap_or(true), foreign: v["foreign"].as_bool().unwrap_or(false), servers },
         "releasing" => Scenario::Releasing { servers },
         "crashing" => Scenario::Crashing { at_hook: v["at_hook"].as_u64().unwrap_or(0) as usize, servers },
         "clients" => Scenario::Clients { leftover: parse_leftover(v["leftover"].as_str().unwrap_or("")), clients: v["clients"].as_u64().unwrap_or(2) as usize, servers },
@@ -806,7 +821,9 @@ pub fn run(opts: Opts) -> i32 {
         }
     }
     for reachable in [true, false] {
-        configs.push((Scenario::LiveHolder { reachable, servers: 2 }, b2));
+        for foreign in [false, true] {
+            configs.push((Scenario::LiveHolder { reachable, foreign, servers: 2 }, b2));
+        }
     }
     configs.push((Scenario::Releasing { servers: 2 }, b2));
     for k in 0..SERVER_HOOKS {
@@ -836,7 +853,8 @@ pub fn run(opts: Opts) -> i32 {
     for l in LEFTOVERS {
         sys_configs.push((Scenario::Contend { leftover: l, servers: 2 }, bs));
     }
-    sys_configs.push((Scenario::LiveHolder { reachable: true, servers: 2 }, bs));
+    sys_configs.push((Scenario::LiveHolder { reachable: true, foreign: false, servers: 2 }, bs));
+    sys_configs.push((Scenario::LiveHolder { reachable: false, foreign: true, servers: 2 }, bs));
     sys_configs.push((Scenario::Releasing { servers: 2 }, bs));
     for k in 0..SERVER_SYSCALLS_MAX {
         sys_configs.push((Scenario::Crashing { at_hook: k, servers: tier.pick(1, 2) }, bs));
